@@ -483,7 +483,8 @@ Inductive event :=
 | EWsRtsp (k : nat) (m : Z) (path : bytes)
 | EWsp (k : nat) (m : Z) (path : bytes)
 | EHttp (kind : Z) (path : bytes) (t : tokv) (seq : Z) (hdrs : list (bytes * bytes))         (* 0 flv, 1 m3u8, 2 segment *)
-| EApi (ep : Z) (t : tokv) (u : user) (upd_pw : bool) (name : bytes) (hdrs : list (bytes * bytes)).
+| EApi (ep : Z) (t : tokv) (u : user) (upd_pw : bool) (name : bytes) (hdrs : list (bytes * bytes))
+| EUrl (url : bytes) (t : tokv) (hdrs : list (bytes * bytes)).   (* GET of an arbitrary URL path under /streams/ *)
 (* hdrs: request headers chosen by the client (the interceptors talk to each other through a request header) *)
 
 Record obs := { o_code : Z; o_aux : Z; o_media : bool; o_id : Z; o_reg : list Z }.
@@ -649,7 +650,7 @@ Definition step_wsp (fixed : bool) (watch : list bytes) (s : state) (k : nat) (m
      ob code (if (m =? M_PLAY) && negb (c_data c2) then 0 else src_aux watch m code c2 (reg s))
         ((m =? M_PLAY) && (c_status c2 =? 2) && c_data c2 && flowing (reg s) c2) 0).
 
-Definition step_http_in (fixed : bool) (s : state) (kind : Z) (path : bytes) (t : tokv) (seq : Z)
+Definition step_http_in (fixed : bool) (watch : list bytes) (s : state) (kind : Z) (path : bytes) (t : tokv) (seq : Z)
            (hdrs : list hdr) : state * obs :=
   let '(code, _) := stream_gate fixed s t path (if kind =? 2 then Some (seq_name seq) else None) hdrs in
   if negb (code =? 200) then (s, ob code 0 false 0)
@@ -660,13 +661,99 @@ Definition step_http_in (fixed : bool) (s : state) (kind : Z) (path : bytes) (t 
               answers 400 for the playlist (after waiting for segments) and 404 for any segment *)
            if (kind =? 1) && negb (o =? 1) then (s, ob 400 0 false 0)
            else if (kind =? 2) && (negb (o =? 1) || negb (seg_listed seq)) then (s, ob 404 0 false 0)
-           else (s, ob 200 0 true 0)
+           else (s, ob 200 (served_index watch (canonical_path path)) true 0)
        end.
 
-Definition step_http (fixed : bool) (s : state) (kind : Z) (path : bytes) (t : tokv) (seq : Z)
+Definition step_http (fixed : bool) (watch : list bytes) (s : state) (kind : Z) (path : bytes) (t : tokv) (seq : Z)
            (hdrs : list hdr) : state * obs :=
   if negb (mux_ok (http_url kind path seq)) then (s, ob 301 0 false 0)
-  else step_http_in fixed s kind (url_path fixed path) t seq hdrs.
+  else step_http_in fixed watch s kind (url_path fixed path) t seq hdrs.
+
+(* ---- an arbitrary URL path under /streams/ : the interceptor and the handler each derive what the request is
+   about from the URL, by separate code (permissionInterceptor / onStreamsRequest + hls.GetTS) ---- *)
+
+(* path.Ext: from the last '.' of the last element *)
+Fixpoint ext_rev (r acc : bytes) : bytes :=
+  match r with
+  | [] => []
+  | c :: r' => if c =? SLASH then [] else if c =? DOT then DOT :: acc else ext_rev r' (c :: acc)
+  end.
+Definition path_ext (u : bytes) : bytes := ext_rev (rev u) [].
+(* the first element of the URL ("streams") *)
+Fixpoint take_seg (s : bytes) : bytes :=
+  match s with
+  | [] => []
+  | c :: s' => if c =? SLASH then [] else c :: take_seg s'
+  end.
+(* extractStreamPathAndExt: requestPath[1+len(token) : len-len(ext)], made canonical (as repaired) *)
+Definition extract (fixed : bool) (u : bytes) : bytes * bytes :=
+  let ext := path_ext u in
+  let start := S (length (take_seg (tl u))) in
+  (url_path fixed (firstn (length u - start - length ext) (skipn start u)), ext).
+(* strings.LastIndex(p, "/") : p[:i], p[i+1:] *)
+Fixpoint split_last_rev (r acc : bytes) : option (bytes * bytes) :=
+  match r with
+  | [] => None
+  | c :: r' => if c =? SLASH then Some (rev r', acc) else split_last_rev r' (c :: acc)
+  end.
+Definition split_last (p : bytes) : option (bytes * bytes) := split_last_rev (rev p) [].
+Definition strip_last (p : bytes) : bytes := match split_last p with Some (q, _) => q | None => p end.
+(* strconv.Atoi: optional sign, at least one digit, nothing else *)
+Definition is_digit_b (c : Z) : bool := (48 <=? c) && (c <=? 57).
+Definition digits_val (d : bytes) : option Z :=
+  match d with
+  | [] => None
+  | _ => if forallb is_digit_b d then Some (fold_left (fun a c => a * 10 + (c - 48)) d 0) else None
+  end.
+Definition atoi_go (s : bytes) : option Z :=
+  match s with
+  | 43 :: d => digits_val d
+  | 45 :: d => option_map Z.opp (digits_val d)
+  | _ => digits_val s
+  end.
+
+(* permissionInterceptor: the path the pull right is checked on *)
+Definition url_icp (fixed : bool) (u : bytes) : bytes :=
+  let '(sp, ext) := extract fixed u in
+  if bytes_eqb ext EXT_TS then strip_last sp else sp.
+
+(* onStreamsRequest + GetTS: what is served.  [lower]: dispatch on the lower-cased extension (not the code; the
+   slip the refutation is about) *)
+Inductive hres := HServe (kind : Z) (p : bytes) (n : Z) | HBad | HNone.
+Definition url_handler (lower fixed : bool) (u : bytes) : hres :=
+  let '(sp, ext) := extract fixed u in
+  let e := if lower then to_lower ext else ext in
+  if bytes_eqb e EXT_FLV then HServe 0 sp 0
+  else if bytes_eqb e EXT_M3U8 then HServe 1 sp 0
+  else if bytes_eqb e EXT_TS then
+    match split_last sp with
+    | None => HBad
+    | Some (p, q) => match atoi_go q with Some n => HServe 2 p n | None => HBad end
+    end
+  else HNone.
+
+(* the sequence numbers the primed playlist of a pre-published stream lists *)
+Definition url_seg_listed (n : Z) : bool := (2 <=? n) && (n <=? 4).
+
+Definition step_url_gen (lower fixed : bool) (watch : list bytes) (s : state) (u : bytes) (t : tokv)
+           (hdrs : list hdr) : state * obs :=
+  if negb (mux_ok u) then (s, ob 301 0 false 0)
+  else
+    let '(code, _) := stream_gate fixed s t (url_icp fixed u) None hdrs in
+    if negb (code =? 200) then (s, ob code 0 false 0)
+    else match url_handler lower fixed u with
+         | HNone => (s, ob 404 0 false 0)
+         | HBad => (s, ob 400 0 false 0)
+         | HServe kind p n =>
+             match live (reg s) p with
+             | None => (s, ob 404 0 false 0)
+             | Some o =>
+                 if (kind =? 1) && negb (o =? 1) then (s, ob 400 0 false 0)
+                 else if (kind =? 2) && (negb (o =? 1) || negb (url_seg_listed n)) then (s, ob 404 0 false 0)
+                 else (s, ob 200 (served_index watch (canonical_path p)) true (kind + 1))
+             end
+         end.
+Definition step_url := step_url_gen false.
 
 Definition step_api (s : state) (ep : Z) (t : tokv) (u : user) (upd_pw : bool) (name : bytes)
            (hdrs : list hdr) : state * obs :=
@@ -692,7 +779,8 @@ Definition step_gen (fixed : bool) (watch : list bytes) (s : state) (ev : event)
   | EWsOpen kind path t chan hdrs => step_wsopen fixed s kind path t chan hdrs
   | EWsRtsp k m path => step_wsrtsp fixed watch s k m path
   | EWsp k m path => step_wsp fixed watch s k m
-  | EHttp kind path t seq hdrs => step_http fixed s kind path t seq hdrs
+  | EHttp kind path t seq hdrs => step_http fixed watch s kind path t seq hdrs
+  | EUrl url t hdrs => step_url fixed watch s url t hdrs
   | EApi ep t u upd_pw name hdrs => step_api s ep t u upd_pw name hdrs
   end.
 
@@ -702,6 +790,7 @@ Definition strip_hdrs (ev : event) : event :=
   | EWsOpen kind path t chan _ => EWsOpen kind path t chan []
   | EHttp kind path t seq _ => EHttp kind path t seq []
   | EApi ep t u upd_pw name _ => EApi ep t u upd_pw name []
+  | EUrl url t _ => EUrl url t []
   | _ => ev
   end.
 
@@ -757,6 +846,7 @@ Definition identity (s : state) (ev : event) : option bytes :=
   | EWsOpen _ _ t _ _ => token_identity s t
   | EHttp _ _ t _ _ => token_identity s t
   | EApi _ t _ _ _ _ => token_identity s t
+  | EUrl _ t _ => token_identity s t
   | _ => None
   end.
 
@@ -779,6 +869,7 @@ Definition target (s : state) (ev : event) : action * bytes :=
   | EWsOpen kind path _ chan _ => (APull, canonical_path path)
   | EHttp _ path _ _ _ => (APull, canonical_path path)
   | EApi ep _ _ _ _ _ => (if ep_read ep then AApiRead else AAdmin, [])
+  | EUrl url _ _ => (APull, url_icp true url)
   | _ => (AApiRead, [])
   end.
 
@@ -797,6 +888,7 @@ Definition granted (ev : event) (o : obs) : bool :=
   | EWsOpen kind _ _ _ _ => (o_code o =? 101) || o_media o
   | EHttp _ _ _ _ _ => (o_code o =? 200) || o_media o
   | EApi ep _ _ _ _ _ => negb (ep_open ep) && (o_code o =? 2)
+  | EUrl _ _ _ => (o_code o =? 200) || o_media o
   | _ => false
   end.
 (* the request is answered with success *)
@@ -806,6 +898,7 @@ Definition accepted (ev : event) (o : obs) : bool :=
   | EWsOpen kind _ _ _ _ => o_code o =? 101
   | EHttp _ _ _ _ _ => (o_code o =? 200) && o_media o
   | EApi ep _ _ _ _ _ => o_code o =? 2
+  | EUrl _ _ _ => (o_code o =? 200) && o_media o
   | _ => false
   end.
 
@@ -845,6 +938,16 @@ Definition feasible (watch : list bytes) (s : state) (ev : event) : bool :=
       | None => false
       end
   | EApi _ _ _ _ _ _ => true
+  | EUrl u _ _ =>
+      mux_ok u &&
+      match url_handler false true u with
+      | HServe kind p n =>
+          match live (reg s) p with
+          | Some o => if kind =? 0 then true else (o =? 1) && negb ((kind =? 2) && negb (url_seg_listed n))
+          | None => false
+          end
+      | _ => false
+      end
   | _ => false
   end.
 
@@ -853,7 +956,7 @@ Definition feasible (watch : list bytes) (s : state) (ev : event) : bool :=
    authenticated is told so (401), and a publication appears in the registry only by a granted RECORD *)
 Definition is_request (ev : event) : bool :=
   match ev with
-  | ERtsp _ _ _ _ | EWsRtsp _ _ _ | EWsp _ _ _ | EWsOpen _ _ _ _ _ | EHttp _ _ _ _ _ => true
+  | ERtsp _ _ _ _ | EWsRtsp _ _ _ | EWsp _ _ _ | EWsOpen _ _ _ _ _ | EHttp _ _ _ _ _ | EUrl _ _ _ => true
   | EApi ep _ _ _ _ _ => negb (ep_open ep)
   | _ => false
   end.
@@ -861,7 +964,7 @@ Definition is_request (ev : event) : bool :=
 Definition unauth_code (ev : event) (o : obs) : bool :=
   match ev with
   | ERtsp _ _ _ _ => (o_code o =? 401) || (o_code o =? 455) || (o_code o =? (-1))
-  | EWsOpen _ _ _ _ _ | EHttp _ _ _ _ _ => (o_code o =? 401) || (o_code o =? 301)
+  | EWsOpen _ _ _ _ _ | EHttp _ _ _ _ _ | EUrl _ _ _ => (o_code o =? 401) || (o_code o =? 301)
   | EApi _ _ _ _ _ _ => o_code o =? 401
   | _ => true
   end.
@@ -996,6 +1099,14 @@ Definition ev_ok (s : state) (ev : event) : bool :=
   | _ => true
   end.
 
+(* the part of ev_ok that is not a consequence of reachability: for a raw URL with a ".ts" extension the
+   interceptor checks the stream path without its last element, which is a canonical path cut short *)
+Definition url_ok (ev : event) : bool :=
+  match ev with
+  | EUrl u _ _ => path_ok (url_icp true u)
+  | _ => true
+  end.
+
 Definition judge (watch : list bytes) (s : state) (ev : event) (o : obs) : bool :=
   if ev_ok s ev then judge_strict watch s ev o else true.
 Definition judge_reg (watch : list bytes) (s : state) (ev : event) (o : obs) : bool :=
@@ -1007,6 +1118,8 @@ Definition judge_src (watch : list bytes) (s : state) (ev : event) (o : obs) : b
   match ev with
   | ERtsp _ _ _ _ | EWsRtsp _ _ _ | EWsp _ _ _ =>
       (o_aux o =? 0) || keepalive s ev || (o_aux o =? served_index watch (served_key (snd (target s ev))))
+  | EHttp _ _ _ _ _ | EUrl _ _ _ =>
+      (o_aux o =? 0) || (o_aux o =? served_index watch (served_key (snd (target s ev))))
   | _ => true
   end.
 
